@@ -406,6 +406,61 @@ Section Update.
           end) (us_ed s) (Ok (us_l s))
     end.
 
+  (* ---- update_entry_for_path(path, new_entry_type, hashes): one path ------------------------- *)
+  Definition update_one_path (w : world) (l : loader) (path : list N) (new_type : list N)
+                             (hashes : option (list (list N))) : res loader :=
+    let hashes := match hashes with Some h => Some h | None => o_hashes (l_opts l) end in
+    l1 <- load_manifests w l path false true ;;
+    r <- fold_left (fun (acc : res (loader * bool)) kdv =>
+           '(la, had) <- acc ;;
+           let '(mpath, relpath, m) := kdv in
+           r1 <- fold_left (fun (acc1 : res (loader * bool * list entry)) ie =>
+                   '(l0, had0, rm) <- acc1 ;;
+                   match entry_at l0 mpath (fst ie) with
+                   | None => Ok (l0, had0, rm)
+                   | Some e =>
+                       match e_tag e with
+                       | TIGNORE => if path_starts_with path (pjoin relpath (e_path e)) then Err (XInternal IAssertion)
+                                    else Ok (l0, had0, rm)
+                       | TDIST | TTIMESTAMP => Ok (l0, had0, rm)
+                       | _ =>
+                           let fullpath := pjoin relpath (e_path e) in
+                           if negb (ustr_eqb fullpath path) then Ok (l0, had0, rm) else
+                           if had0 then Ok (l0, had0, rm ++ [e]) else
+                           match upd_entry w (pjoin rootdir fullpath) e hashes (l_dev l0) None with
+                           | Ok (_, sz, ck) =>
+                               Ok (add_updated (set_entry_at l0 mpath (fst ie) (with_size_cks e sz ck)) mpath, true, rm)
+                           | Err (XInvalidPath p what) =>
+                               if ustr_eqb what s_exists then Ok (l0, true, rm ++ [e]) else Err (XInvalidPath p what)
+                           | Err x => Err x
+                           end
+                       end
+                   end) (mf_entries m) (Ok (la, had, [])) ;;
+           let '(l2, had2, rm) := r1 in
+           match rm with
+           | [] => Ok (l2, had2)
+           | _ => l3 <- fold_left (fun (acc2 : res loader) e => l0 <- acc2 ;; remove_entry_eq l0 mpath e) rm (Ok l2) ;;
+                  Ok (add_updated l3 mpath, had2)
+           end) (iter_manifests l1 path false) (Ok (l1, false)) ;;
+    let '(l4, had) := r in
+    if had then Ok l4 else
+    match hashes with
+    | None => Err (XInternal IAssertion)
+    | Some _ =>
+        match iter_manifests l4 path false with
+        | [] => Ok l4
+        | (mpath, mdir, _) :: _ =>
+            if ustr_eqb new_type (tag_str TDIST) || ustr_eqb new_type (tag_str TIGNORE) then Err (XInternal IAssertion) else
+            let newpath := relpath path mdir in
+            np <- (if ustr_eqb new_type (tag_str TAUX)
+                   then (if path_inside_dir newpath s_files then Ok (relpath newpath s_files) else Err (XInternal IAssertion))
+                   else Ok newpath) ;;
+            e <- mk_new_entry new_type np ;;
+            '(_, sz, ck) <- upd_entry w (pjoin rootdir path) e hashes (l_dev l4) None ;;
+            Ok (add_updated (append_entry l4 mpath (with_size_cks e sz ck)) mpath)
+        end
+    end.
+
   (* ---- saving ------------------------------------------------------------------------------ *)
   (* the filesystem after writing a file: a fresh inode replaces the directory entry *)
   Definition fresh_ino (w : world) : N := fold_left (fun acc kn => N.max acc (fst kn + 1)) (w_nodes w) 1.
